@@ -809,3 +809,83 @@ func symtabInvAt(t *SymbolTable) bool {
 		return !ok || (s != nil && (s.Scope != ScopeBuiltin || !specDisabled(t, n)))
 	})
 }
+
+// ---------------------------------------------------------------------------
+// Go boundary (C20)
+
+// specSameScalar: same dynamic type and same value (bit equality for floats).
+func specSameScalar(a, b Object) bool {
+	switch x := a.(type) {
+	case Int:
+		y, ok := b.(Int)
+		return ok && x == y
+	case Uint:
+		y, ok := b.(Uint)
+		return ok && x == y
+	case Char:
+		y, ok := b.(Char)
+		return ok && x == y
+	case Bool:
+		y, ok := b.(Bool)
+		return ok && x == y
+	case String:
+		y, ok := b.(String)
+		return ok && x == y
+	case Float:
+		y, ok := b.(Float)
+		return ok && verifrt.F64bits(float64(x)) == verifrt.F64bits(float64(y))
+	case *UndefinedType:
+		return b == Undefined
+	}
+	return false
+}
+
+// specObjectRoundTrip: uGO scalar -> Go value -> uGO value.
+func specObjectRoundTrip(o Object) bool {
+	r, err := ToObject(ToInterface(o))
+	return err == nil && specSameScalar(r, o)
+}
+
+func specSameGo(a, b any) bool {
+	switch x := a.(type) {
+	case nil:
+		return b == nil
+	case int64:
+		y, ok := b.(int64)
+		return ok && x == y
+	case uint64:
+		y, ok := b.(uint64)
+		return ok && x == y
+	case rune:
+		y, ok := b.(rune)
+		return ok && x == y
+	case bool:
+		y, ok := b.(bool)
+		return ok && x == y
+	case string:
+		y, ok := b.(string)
+		return ok && x == y
+	case float64:
+		y, ok := b.(float64)
+		return ok && verifrt.F64bits(x) == verifrt.F64bits(y)
+	}
+	return false
+}
+
+// specGoRoundTrip: canonical Go scalar -> uGO value -> Go value.
+func specGoRoundTrip(v any) bool {
+	o, err := ToObject(v)
+	return err == nil && o != nil && specSameGo(ToInterface(o), v)
+}
+
+// specWidthPreserved: every other accepted integer / float width converts to the uGO value with the same numeric value.
+func specIntWidths(a int, b uint, c uintptr, d byte, e float32) bool {
+	oa, ea := ToObject(a)
+	ob, eb := ToObject(b)
+	oc, ec := ToObject(c)
+	od, ed := ToObject(d)
+	oe, ee := ToObject(e)
+	return ea == nil && eb == nil && ec == nil && ed == nil && ee == nil &&
+		oa == Object(Int(a)) && ob == Object(Uint(b)) && oc == Object(Uint(c)) && od == Object(Char(d)) &&
+		specSameScalar(oe, Float(float64(e)))
+}
